@@ -31,8 +31,8 @@ ASSUMPTIONS = common.BASE_ASSUMPTIONS + [
     "real TCP delivery from a concurrent OS thread is replaced by the simulated sender task + scheduler (uncontrolled OS scheduling would not replay)",
 ]
 REAL_VS_STUB = common.REAL_VS_STUB
-QUICK_RUNS = 22000
-QUICK_MODEL_RUNS = 12000
+QUICK_RUNS = 90000
+QUICK_MODEL_RUNS = 50000
 EXPECTED_PROBES = {
     t: [
         "chunk_boundary_ubx_sync", "chunk_boundary_ubx_length", "chunk_boundary_ubx_checksum", "chunk_boundary_nmea_crlf",
